@@ -43,8 +43,9 @@ Qed.
 Print Assumptions C18_inv_on_every_write.
 
 (* (2) one step of the history: each attempt is made against the value stored at that moment (chain), never
-       decreases MaxRaftID, keeps an id or draws a fresh one above MaxRaftID, adds at most one node, and
-       drops only a replica that was marked removing *)
+       decreases MaxRaftID, keeps an id or draws a fresh one above MaxRaftID, adds at most one node, drops
+       only a replica that was marked removing, and changes the replica set by at most one member
+       (small_step: unchanged / one added / one marked-removing replica dropped) *)
 Theorem C18_history_steps : forall replica info auto evs,
   Inv replica info ->
   chain (set_epoch info 1) (snd (run (init_state replica info auto) evs))
